@@ -5,6 +5,8 @@
 #include <cstdio>
 #include <cstdlib>
 #include <exception>
+#include <csignal>
+#include <sys/time.h>
 #include <unistd.h>
 
 extern "C" void __assert_fail(const char *expr, const char *file, unsigned line, const char *func)
@@ -49,4 +51,44 @@ struct Install {
         std::set_terminate(on_terminate);
     }
 } g_install;
+}
+
+// CPU-time watchdog: a loader spinning on a dead stream consumes CPU without
+// ever calling the stream buffer again, so the refill budget cannot see it.
+// The timer counts this process's own CPU time (ITIMER_VIRTUAL), which makes
+// the verdict independent of machine load: no correct operation on a file of
+// a few kilobytes needs seconds of CPU.
+namespace sim {
+namespace {
+void on_vtalrm(int)
+{
+    static const char msg[] = "DEATH no-progress (CPU watchdog)\n";
+    ssize_t r = write(1, msg, sizeof msg - 1);
+    (void)r;
+    _exit(74);
+}
+}
+void watchdog_arm(int cpu_seconds)
+{
+    static bool installed = false;
+    if (!installed) {
+        struct sigaction sa;
+        sa.sa_handler = on_vtalrm;
+        sigemptyset(&sa.sa_mask);
+        sa.sa_flags = 0;
+        sigaction(SIGVTALRM, &sa, nullptr);
+        installed = true;
+    }
+    struct itimerval it;
+    it.it_interval.tv_sec = 0;
+    it.it_interval.tv_usec = 0;
+    it.it_value.tv_sec = cpu_seconds;
+    it.it_value.tv_usec = 0;
+    setitimer(ITIMER_VIRTUAL, &it, nullptr);
+}
+void watchdog_disarm()
+{
+    struct itimerval it = {{0, 0}, {0, 0}};
+    setitimer(ITIMER_VIRTUAL, &it, nullptr);
+}
 }
